@@ -333,7 +333,8 @@ fn run_shard(prop: &dyn Prop, plan_cases: u64, tape_len: usize, seed: u64) -> Sh
         ..Config::default()
     };
     let mut runner = TestRunner::new(config);
-    let strat = proptest::collection::vec(proptest::num::u16::ANY, 0..=tape_len);
+    // at least a third of the maximum length, so that few cases are degraded by an exhausted tape
+    let strat = proptest::collection::vec(proptest::num::u16::ANY, tape_len / 3..=tape_len);
     let stats = RefCell::new(Stats::default());
     let res = runner.run(&strat, |tape| {
         let mut st = stats.borrow_mut();
